@@ -96,6 +96,8 @@ def sched_plan(ctx):
             jobs.append(((node, "native", "await", 4 if not heavy else 3, None), 1))
     for node in c04.UNIQUE_NODES:
         jobs.append(((node, "future", "burst", 4, (1, 3, 2, 4)), 1 if T else 0))
+        # a key seen first, then another, then the first again: keep='last' moves the member to the end
+        jobs.append(((node, "future", "burst", 3, (1, 2, 5)), 1))
     return jobs
 
 
